@@ -189,5 +189,9 @@ Definition CFDivisor___sub__ (self_graph_vertices : list nat) (self_degrees : di
   PyOk new_degrees_list end) (set_order self_graph_vertices) (PyOk new_degrees_list) with PyExn e_ => PyExn e_ | PyOk new_degrees_list =>
   match CFDivisor___init__ set_order self_graph_vertices self_graph_graph new_degrees_list with PyExn _ => PyExn tt | PyOk new_ => PyOk (new_) end end.
 
+(* chipfiring/CFDivisor.py :: CFDivisor.get_total_degree   reads ['self_total_degree'], writes [] *)
+Definition CFDivisor_get_total_degree (self_total_degree : Z) : Z :=
+  (self_total_degree).
+
 (* CFDivisor.firing_move is the class attribute `firing_move = lending_move` *)
 Definition CFDivisor_firing_move := CFDivisor_lending_move.
